@@ -7,7 +7,9 @@
 EXTENDS ElfLoad, TLC, Json
 CONSTANTS MaxSegs, DumpEdges
 VARIABLE cfg
-SizeClasses == {"equal", "bss", "page", "twopage", "one", "empty", "bsspage"}
+SizeClasses == {"equal", "bss", "page", "twopage", "one", "empty", "bsspage",
+                "bssonly",           \* no file content at all, 200 bytes of memory (whatever the flags)
+                "ua", "ua2"}         \* virtual address NOT page aligned: 0xf00 into the page and running into the next one; 0xc0 into it
 Pages == {1, 2, 4}                         \* page numbers (adjacent and separated)
 Shapes == {<<"none", "none">>, <<"named", "none">>, <<"unnamed", "note">>, <<"dup", "gnustack">>, <<"entry-other-name", "none">>,
            <<"named", "gnustack">>, <<"none", "note">>,
@@ -21,19 +23,22 @@ Next == /\ cfg.seed
         /\ \E pg \in [1..cfg.n -> Pages], sz \in [1..cfg.n -> SizeClasses] :
              /\ \A i, j \in 1..cfg.n : i # j => pg[i] # pg[j]
              /\ \A i \in 2..cfg.n : sz[i] \in {"equal", "page", "bss"}
-             /\ \A i \in 1..cfg.n : (sz[i] \in {"twopage"} => (pg[i] + 1) \notin {pg[j] : j \in 1..cfg.n})
+             /\ \A i \in 1..cfg.n : (sz[i] \in {"twopage", "ua"} => (pg[i] + 1) \notin {pg[j] : j \in 1..cfg.n})
              /\ cfg' = [seed |-> FALSE, n |-> cfg.n, pg |-> pg, sz |-> sz, fl |-> cfg.fl, sy |-> cfg.sy, extra |-> cfg.extra]
 
 FileSz(c) == CASE c = "equal" -> 24 [] c = "bss" -> 16 [] c = "page" -> 4096 [] c = "twopage" -> 8192 [] c = "one" -> 1 [] c = "empty" -> 0 [] c = "bsspage" -> 100
+               [] c = "bssonly" -> 0 [] c = "ua" -> 128 [] c = "ua2" -> 64
+VOff(c)   == CASE c = "ua" -> 3840 [] c = "ua2" -> 192 [] OTHER -> 0
 MemSz(c)  == CASE c = "equal" -> 24 [] c = "bss" -> 200 [] c = "page" -> 4096 [] c = "twopage" -> 8192 [] c = "one" -> 1 [] c = "empty" -> 0 [] c = "bsspage" -> 4096
+               [] c = "bssonly" -> 200 [] c = "ua" -> 384 [] c = "ua2" -> 1856
 Prot(f) == (IF (f \div 4) % 2 = 1 THEN 1 ELSE 0) + (IF (f \div 2) % 2 = 1 THEN 2 ELSE 0) + (IF f % 2 = 1 THEN 4 ELSE 0)     \* PF_R=4,PF_W=2,PF_X=1 -> R=1,W=2,X=4
 Data(n, k) == [i \in 1..n |-> 1 + ((i + k) % 200)]
-File == [entry |-> 4194304 + cfg.pg[1] * 4096,
-         segs |-> [i \in 1..cfg.n |-> [load |-> TRUE, vaddr |-> 4194304 + cfg.pg[i] * 4096, data |-> Data(FileSz(cfg.sz[i]), i),
+File == [entry |-> 4194304 + cfg.pg[1] * 4096 + VOff(cfg.sz[1]),
+         segs |-> [i \in 1..cfg.n |-> [load |-> TRUE, vaddr |-> 4194304 + cfg.pg[i] * 4096 + VOff(cfg.sz[i]), data |-> Data(FileSz(cfg.sz[i]), i),
                                         memsz |-> MemSz(cfg.sz[i]), prot |-> Prot(cfg.fl[i])]],
          syms |-> <<>>]
 RefObs == [k |-> "ok", rip |-> File.entry, resolved |-> <<>>,
-           areas |-> [i \in 1..cfg.n |-> [start |-> File.segs[i].vaddr, len |-> ((File.segs[i].memsz + 4095) \div 4096) * 4096, prot |-> File.segs[i].prot,
+           areas |-> [i \in 1..cfg.n |-> [start |-> File.segs[i].vaddr, len |-> ((VOff(cfg.sz[i]) + File.segs[i].memsz + 4095) \div 4096) * 4096 - VOff(cfg.sz[i]), prot |-> File.segs[i].prot,
                                            nz |-> [j \in 1..Len(File.segs[i].data) |-> <<j - 1, File.segs[i].data[j]>>]]]]
 Sane == cfg.seed \/
         /\ Post(File, RefObs)
